@@ -29,7 +29,8 @@ RULE = ('programs from an own grammar (1-6 equations, shared variables, paramete
         'solve(start, end, ...), always comparing the whole value matrix, with '
         'positive/negative/infeasible/out-of-range t; operation HISTORIES (2-5 steps on the same pair of instances: solve '
         'then solve with too few iterations / an out-of-span offset / failures ignore-then-raise, solve_t then solve, '
-        'copy() between calls; full state compared after every step and every step tied to the model from the record '
+        'copy() between calls; the instance dtype float32 / int / object-of-floats on a sample of the calls of every program '
+        '(incl. a pre-existing NaN under errors=raise); full state compared after every step and every step tied to the model from the record '
         'the previous step left); every program also rendered under other script layouts (harness/gen_scripts.py: '
         'wrapped multi-line equations with blank/comment lines inside, comments, spacing variants, random layouts): must '
         'build, give the same symbols, Fortran text made only of comments / predicted statements / continuations, compile, '
@@ -40,7 +41,9 @@ TRUSTED = ['gfortran 12 (-O0) and what its generated code computes in floating p
            'copies, scalars by reference)',
            'NumPy float64 scalar arithmetic is IEEE-754 double (mirrored by Lean Float in the driver instance); '
            'gfortran real(4) arithmetic is IEEE-754 single (mirrored by Lean Float32)']
-ASSUMPTIONS = ['values stay finite (the property text); non-finite data is used only to tie the model of the error-code '
+ASSUMPTIONS = ['the theorems are about float64 storage (what crosses to Fortran); instances of dtype object-of-floats are '
+               'required to behave identically, dtype int / float32 identically up to the open finding dtype-rounds-once',
+               'values stay finite (the property text); non-finite data is used only to tie the model of the error-code '
                'paths to the compiled template, never for the property oracle',
                'documented option strings only: failures in {raise, ignore}, errors in {raise, skip, ignore, replace}',
                'non-empty span of integer labels 0..n-1; -n <= t < n except where stated']
@@ -135,8 +138,11 @@ def exc_tag(e):
     return 'Other(' + type(e).__name__ + ')'
 
 
-def make_instance(cls, n, data):
-    m = cls(list(range(n)))
+DTYPES = {'float64': float, 'float32': np.float32, 'int': int, 'object': object}
+
+
+def make_instance(cls, n, data, dtype=None):
+    m = cls(list(range(n))) if dtype in (None, 'float64') else cls(list(range(n)), dtype=DTYPES[dtype])
     for name in m.names:
         m.__dict__['_' + name][:] = [unbits(b) for b in data[name]]
     return m
@@ -174,10 +180,36 @@ def do_call(m, call):
             return exc_tag(e)
 
 
-def run_call(cls, n, data, call):
-    m = make_instance(cls, n, data)
+def run_call(cls, n, data, call, dtype=None):
+    m = make_instance(cls, n, data, dtype)
     tag = do_call(m, call)
-    return snapshot(m, tag)
+    o = snapshot(m, tag)
+    if dtype not in (None, 'float64'):
+        o['dtypes'] = sorted({str(m.__dict__['_' + name].dtype) for name in m.names})
+    return o
+
+
+def cast_once(obs, dtype):
+    """The float64 observation with its values cast to the instance dtype once, at the end — what a Fortran engine
+    does for an instance of a narrower dtype (values cross as float64, the iteration runs in double, the result is
+    cast back on storing), where the Python class rounds / truncates on every single store."""
+    def c(b):
+        x = unbits(b)
+        if dtype == 'float32':
+            return bits(float(np.float32(x)))
+        if dtype == 'int':
+            return bits(float(int(x))) if np.isfinite(x) else b
+        return b
+    return dict(obs, vals=[[c(b) for b in row] for row in obs['vals']])
+
+
+def dtype_data(data, dtype, rng):
+    """Initial values the dtype can hold exactly (so both classes start from the same stored numbers)."""
+    if dtype == 'int':
+        return {k: [bits(float(rng.randrange(-3, 4))) for _ in row] for k, row in data.items()}
+    if dtype == 'float32':
+        return {k: [bits(float(np.float32(unbits(b)))) for b in row] for k, row in data.items()}
+    return data
 
 
 # ---- the Python class with its convergence rows shifted by one ----------------------------------------------------
@@ -979,6 +1011,62 @@ def process_program(job):
                                      obs_str(Po) if p_tie else None, case, prog['unsafe']))
         if not prog.get('nonfinite'):
             defects = [k for k in prog['unsafe'] if k != 'powi']
+            # ---- instance dtype: float32, int, object-of-floats (float64 is everything above) -----------------------
+            if not defects and plain_obs:
+                picks = [c for c, *_ in plain_obs]
+                it_calls = [c for c in calls if c['call'] in ('solve_t', 'solve_period', 'solve')]
+                picks = (picks[:2] + it_calls[:budget.get('dtype_calls', 4)])
+                libm_ = prog['libm'] or 'powi' in prog['unsafe']
+                for dt in ('float32', 'int', 'object'):
+                    ddata = dtype_data(data, dt, rng)
+                    extra = []
+                    if dt != 'int' and P.CHECK and feasible(lags, n, lags, leads):
+                        # a pre-existing NaN in a check variable under errors='raise': rejected alike, nothing changes
+                        nd = {k: list(v) for k, v in ddata.items()}
+                        nd[P.CHECK[0]][lags] = bits(float('nan'))
+                        extra = [({'call': 'solve_t', 't': lags, 'opts': mkopts(0, 5, 1e-6, 0, 'ignore', 'raise')}, nd),
+                                 ({'call': 'solve', 'start': lags, 'opts': mkopts(0, 5, 1e-6, 0, 'ignore', 'raise')}, nd)]
+                    for call, dd in [(c, ddata) for c in picks] + extra:
+                        count('dtype:' + dt)
+                        case = dict(base_case, n=n, data=dd, call=call, dtype=dt, ast=prog['eqs'], env=prog['env'])
+                        out['cases'].append((json.dumps([prog['script'], dd, call, dt], sort_keys=True), True))
+                        fo, po = run_call(F, n, dd, call, dt), run_call(P, n, dd, call, dt)
+                        iterated = call['call'] != 'evaluate'
+                        what = (f"dtype={dt} {call}: Fortran {fo['tag']} status {fo['status']} iterations {fo['iters']} "
+                                f"dtypes {fo.get('dtypes')} vs Python {po['tag']} status {po['status']} iterations "
+                                f"{po['iters']} dtypes {po.get('dtypes')}; max value distance {max_ulp(fo, po)} ulp")
+                        if fo.get('dtypes') != po.get('dtypes'):
+                            out['violations'].append({'key': 'engine-mismatch:dtype-' + dt, 'what': what, 'case': case})
+                            continue
+                        if dd is not ddata:   # the NaN case: identical rejection, identical state
+                            if not (same_control(fo, po) and max_ulp(fo, po) == 0):
+                                out['violations'].append({'key': 'engine-mismatch:dtype-' + dt, 'what': what, 'case': case})
+                            else:
+                                count('agree:dtype-nan-' + dt)
+                            continue
+                        if (not all_finite(po) or po['tag'] == 'SolutionError' or 'E' in po['status']) and dt != 'object':
+                            count('skipped:dtype-non-finite')
+                            continue
+                        if agree(fo, po, libm_, iterated):
+                            count('agree:dtype-' + dt)
+                            continue
+                        v = classify(prog, call, n, lags, leads, fo, po, lambda c=None: None)
+                        if v is not None and v[0] in ('skip', 'infeasible-period-evaluate'):
+                            count('skipped:dtype-' + v[0]) if v[0] == 'skip' else out['violations'].append({'key': v[0], 'what': what, 'case': case})
+                            continue
+                        if dt in ('float32', 'int'):
+                            raw64 = run_call(F, n, dd, call)
+                            huge = dt == 'int' and any(abs(unbits(b)) >= 2.0 ** 53 for row in raw64['vals'] for b in row)
+                            if huge or not all_finite(raw64) or raw64['tag'] == 'SolutionError' or 'E' in raw64['status']:
+                                count('skipped:dtype-non-finite-in-double')   # the engine's double arithmetic overflows (or leaves int64)
+                                continue
+                            f64 = cast_once(raw64, dt)
+                            if same_control(fo, f64) and max_ulp(fo, f64) == 0:
+                                count('differs:dtype-rounds-once')
+                                out['violations'].append({'key': 'dtype-rounds-once', 'what': what, 'case': case})
+                                continue
+                        count('differs:engine-mismatch:dtype-' + dt)
+                        out['violations'].append({'key': 'engine-mismatch:dtype-' + dt, 'what': what, 'case': case})
             # ---- operation histories (exact comparison: arithmetic-only programs without a known defect) ----------
             if not defects and not prog['libm'] and 'powi' not in prog['unsafe']:
                 for steps in random_histories(rng, n, lags, leads, budget.get('histories', 4)):
@@ -1055,9 +1143,17 @@ def process_program(job):
                             break
                     else:
                         count('agree:layout')
-    except Exception as e:  # noqa: BLE001
+    except (OSError, MemoryError) as e:   # infrastructure (gfortran missing, disk, memory): not a verdict
         out['notes'].append('worker error: ' + ''.join(traceback.format_exception(type(e), e, e.__traceback__))[-1500:])
         out['error'] = True
+    except Exception as e:  # noqa: BLE001
+        # The harness could not digest what the code under test returned (never happens on the unchanged tree; seen
+        # once with a seeded change that made the compiled module read outside its arrays).  That is a deviation of
+        # the code, not of the infrastructure: report it with the traceback instead of aborting the whole check.
+        tb = ''.join(traceback.format_exception(type(e), e, e.__traceback__))[-1500:]
+        out['notes'].append('worker exception: ' + tb)
+        out['violations'].append({'key': 'unprocessable-observation', 'what': 'the harness raised while processing this program: ' + tb,
+                                  'case': {'script': prog['script'], 'tag': prog.get('tag', 'random')}})
     finally:
         shutil.rmtree(work, ignore_errors=True)
     return out
@@ -1265,6 +1361,20 @@ def _replay_here(case):
                 if not agree(fo, po, False, True):
                     rep.violate('engine-mismatch:history', f'after step {i}', case)
                     break
+            return lines, viol
+        if 'dtype' in case:
+            n, data, call, dt = case['n'], case['data'], case['call'], case['dtype']
+            fo, po = run_call(F, n, data, call, dt), run_call(P, n, data, call, dt)
+            print('  fortran: ' + obs_str(fo)[:300])
+            print('  python : ' + obs_str(po)[:300])
+            ok = fo.get('dtypes') == po.get('dtypes') and agree(fo, po, prog['libm'], call['call'] != 'evaluate')
+            if not ok and dt in ('float32', 'int') and fo.get('dtypes') == po.get('dtypes'):
+                f64 = cast_once(run_call(F, n, data, call), dt)
+                if same_control(fo, f64) and max_ulp(fo, f64) == 0:
+                    rep.violate('dtype-rounds-once', 'explained by casting once', case)
+                    return lines, viol
+            if not ok:
+                rep.violate('engine-mismatch:dtype-' + dt, 'differs', case)
             return lines, viol
         if 'plain' in case and 'call' in case:   # a layout variant whose results differed from the plain layout
             work2 = tempfile.mkdtemp(prefix='fsic-c07-')
